@@ -63,8 +63,13 @@ def install(T):
             return False
         return builtins.bool((a == b).all()) if a.numel() else True
 
-    def allclose(a, b, rtol=1e-5, atol=1e-8):
-        raise T.HarnessError("torch.allclose on symbolic tensors")
+    def isclose(a, b, rtol=1e-05, atol=1e-08, equal_nan=False):
+        # |a - b| <= atol + rtol * |b| elementwise (finite entries; the literals are the exact doubles torch uses)
+        bb = b if isinstance(b, Tensor) else T.tensor(b, dtype=a.dtype)
+        return (a - bb).abs() <= (bb.abs() * _elem(rtol, a.dtype) + _elem(atol, a.dtype))
+
+    def allclose(a, b, rtol=1e-05, atol=1e-08, equal_nan=False):
+        return builtins.bool(isclose(a, b, rtol, atol, equal_nan).all())
 
     def where(c, a, b):
         out = np.empty(c.a.shape, dtype=object)
@@ -75,7 +80,7 @@ def install(T):
         dt = a.dtype if isinstance(a, Tensor) else (b.dtype if isinstance(b, Tensor) else T.float32)
         return Tensor(out, dt)
 
-    for f in (pow, neg, reciprocal, rsqrt, sum, mean, dot, outer, stack, cat, lerp, addcmul, addcdiv, full_like, equal, allclose, where):
+    for f in (pow, neg, reciprocal, rsqrt, sum, mean, dot, outer, stack, cat, lerp, addcmul, addcdiv, full_like, equal, isclose, allclose, where):
         setattr(T, f.__name__, f)
 
     # --- methods
@@ -125,3 +130,280 @@ def install(T):
     Tensor.__isub__ = lambda s, o: s.sub_(o)
     Tensor.__imul__ = lambda s, o: s.mul_(o)
     Tensor.__itruediv__ = lambda s, o: s.div_(o)
+
+    install2(T)
+
+
+def install2(T):
+    """Second batch: selection / clamping / sorting / shape utilities / further foreach ops."""
+    import collections
+
+    Tensor = T.Tensor
+    _np, _elem, _map = T._np, T._elem, T._map
+    HarnessError = T.HarnessError
+
+    def _b(x):
+        return builtins.bool(T._truth(x))
+
+    def _wrap(arr, dt, *srcs):
+        if not isinstance(arr, np.ndarray):
+            a = np.empty((), dtype=object)
+            a[()] = arr
+            arr = a
+        return Tensor(arr, dt)._nf_from(*srcs)
+
+    # ---- clamp family
+    def clamp(t, min=None, max=None):
+        lo = None if min is None else _elem(min, t.dtype)
+        hi = None if max is None else _elem(max, t.dtype)
+
+        def f(x):
+            if lo is not None:
+                x = T._minmax_e(x, lo, False)
+            if hi is not None:
+                x = T._minmax_e(x, hi, True)
+            return x
+
+        return _wrap(_map(f, t.a), t.dtype, t)
+
+    def clamp_(t, min=None, max=None):
+        return t._inplace(clamp(t, min, max).a)
+
+    def sign(t):
+        def f(x):
+            if _b(x > 0):
+                return T._one(t.dtype)
+            if _b(x < 0):
+                return -T._one(t.dtype)
+            return T._zero(t.dtype)
+
+        return _wrap(_map(f, t.a), t.dtype, t)
+
+    # ---- sorting / selection
+    def argsort(t, dim=-1, descending=False, stable=False):
+        if t.a.ndim != 1:
+            raise HarnessError("argsort of a non-vector")
+        vals = list(t.a.reshape(-1))
+        order = []
+        for i, v in enumerate(vals):
+            pos = len(order)
+            for j, k in enumerate(order):
+                if _b((v > vals[k]) if descending else (v < vals[k])):
+                    pos = j
+                    break
+            order.insert(pos, i)
+        return T.tensor(order, dtype=T.int64)
+
+    SortResult = collections.namedtuple("sort", ["values", "indices"])
+
+    def sort(t, dim=-1, descending=False, stable=False):
+        idx = argsort(t, dim, descending, stable)
+        return SortResult(t[idx], idx)
+
+    def argmax(t, dim=None):
+        if dim is not None:
+            raise HarnessError("argmax with dim")
+        vals = list(t.a.flatten())
+        best = 0
+        for i in range(1, len(vals)):
+            if _b(vals[i] > vals[best]):
+                best = i
+        return T.tensor(best, dtype=T.int64)
+
+    def argmin(t, dim=None):
+        if dim is not None:
+            raise HarnessError("argmin with dim")
+        vals = list(t.a.flatten())
+        best = 0
+        for i in range(1, len(vals)):
+            if _b(vals[i] < vals[best]):
+                best = i
+        return T.tensor(best, dtype=T.int64)
+
+    def _reduce_minmax(t, dim, want_min):
+        def red(vals):
+            r = vals[0]
+            for v in vals[1:]:
+                r = T._minmax_e(r, v, want_min)
+            return r
+
+        if dim is None:
+            return _wrap(red(list(t.a.flatten())), t.dtype, t)
+        moved = np.moveaxis(t.a, dim, -1)
+        out = np.empty(moved.shape[:-1], dtype=object)
+        for idx in np.ndindex(*moved.shape[:-1]):
+            out[idx] = red(list(moved[idx]))
+        return _wrap(out, t.dtype, t)
+
+    def amax(t, dim=None):
+        return _reduce_minmax(t, dim, False)
+
+    def amin(t, dim=None):
+        return _reduce_minmax(t, dim, True)
+
+    def prod(t, dim=None):
+        if dim is None:
+            r = T._one(t.dtype)
+            for v in t.a.flatten():
+                r = r * v
+            return _wrap(r, t.dtype, t)
+        return _wrap(_np(np.prod(t.a, axis=dim)), t.dtype, t)
+
+    def cumsum(t, dim=0):
+        return _wrap(_np(np.cumsum(t.a, axis=dim)), t.dtype, t)
+
+    def nonzero(t):
+        idx = [list(i) for i in np.ndindex(*t.a.shape) if _b(t.a[i])]
+        return T.tensor(idx if idx else np.zeros((0, t.a.ndim), dtype=int).tolist(), dtype=T.int64).reshape(len(idx), t.a.ndim)
+
+    def flip(t, dims):
+        dims = (dims,) if isinstance(dims, int) else tuple(dims)
+        return _wrap(np.flip(t.a, axis=dims).copy(), t.dtype, t)
+
+    def unbind(t, dim=0):
+        return tuple(t._alias(np.take(t.a, i, axis=dim)) if False else t.select(dim, i) for i in range(t.a.shape[dim]))
+
+    def select(t, dim, index):
+        ix = [slice(None)] * t.a.ndim
+        ix[dim] = index
+        return t._alias(t.a[tuple(ix)])
+
+    def chunk(t, chunks, dim=0):
+        n = t.a.shape[dim]
+        size = -(-n // chunks)
+        return T.split(t, size, dim) if n else (t,)
+
+    def index_select(t, dim, index):
+        ii = [builtins.int(x) for x in index.a.reshape(-1)]
+        return _wrap(np.take(t.a, ii, axis=dim).copy(), t.dtype, t)
+
+    def masked_fill(t, mask, value):
+        out = t.a.copy()
+        m = np.broadcast_to(mask.a, t.a.shape)
+        v = _elem(value, t.dtype)
+        for idx in np.ndindex(*t.a.shape):
+            if _b(m[idx]):
+                out[idx] = v
+        return _wrap(out, t.dtype, t)
+
+    def masked_fill_(t, mask, value):
+        return t._inplace(masked_fill(t, mask, value).a)
+
+    def expand(t, *sizes):
+        sizes = tuple(sizes[0]) if len(sizes) == 1 and not isinstance(sizes[0], builtins.int) else sizes
+        tgt = tuple(t.a.shape[i - (len(sizes) - t.a.ndim)] if s == -1 else s for i, s in enumerate(sizes))
+        if tgt == tuple(t.a.shape):
+            return t._alias(t.a)
+        return Tensor(np.broadcast_to(t.a, tgt), t.dtype)._nf_from(t)
+
+    def broadcast_to(t, size):
+        return expand(t, *tuple(size))
+
+    def repeat(t, *sizes):
+        sizes = tuple(sizes[0]) if len(sizes) == 1 and not isinstance(sizes[0], builtins.int) else sizes
+        return _wrap(np.tile(t.a, sizes), t.dtype, t)
+
+    def unflatten(t, dim, sizes):
+        shp = list(t.a.shape)
+        d = dim % len(shp)
+        return t.reshape(*(shp[:d] + list(sizes) + shp[d + 1:]))
+
+    def atleast_1d(t):
+        return t if t.a.ndim >= 1 else t.reshape(1)
+
+    def atleast_2d(t):
+        return t if t.a.ndim >= 2 else t.reshape(1, -1)
+
+    def scalar_tensor(x, dtype=None, device=None):
+        return T.tensor(x, dtype=dtype or T.float32)
+
+    def multi_dot(ts):
+        r = ts[0]
+        for x in ts[1:]:
+            r = T.matmul(r, x)
+        return r
+
+    def mv(a, b):
+        return T.matmul(a, b)
+
+    def logical_not(t):
+        return Tensor(_map(lambda x: (not _b(x)) if isinstance(x, builtins.bool) or not hasattr(x, "__invert__") else ~x, (t != 0).a if t.dtype is not T.bool else t.a), T.bool)
+
+    def logical_and(a, b):
+        return (a if a.dtype is T.bool else (a != 0)) & (b if b.dtype is T.bool else (b != 0))
+
+    def logical_or(a, b):
+        return (a if a.dtype is T.bool else (a != 0)) | (b if b.dtype is T.bool else (b != 0))
+
+    mod_funcs = dict(clamp=clamp, clip=clamp, sign=sign, sgn=sign, argsort=argsort, sort=sort, argmax=argmax, argmin=argmin, amax=amax, amin=amin, prod=prod, cumsum=cumsum,
+                     nonzero=nonzero, flip=flip, unbind=unbind, select=select, chunk=chunk, index_select=index_select, masked_fill=masked_fill, broadcast_to=broadcast_to,
+                     unflatten=unflatten, atleast_1d=atleast_1d, atleast_2d=atleast_2d, scalar_tensor=scalar_tensor, mv=mv, logical_not=logical_not, logical_and=logical_and,
+                     logical_or=logical_or, multiply=T.mul, subtract=T.sub, true_divide=T.div, divide=T.div, negative=T.neg, inner=T.dot, vdot=T.dot, transpose=lambda t, a, b: t.transpose(a, b),
+                     permute=lambda t, dims: t.permute(*dims), reshape=lambda t, shape: t.reshape(*shape), flatten=lambda t: t.flatten(), squeeze=lambda t, d=None: t.squeeze(d),
+                     unsqueeze=lambda t, d: t.unsqueeze(d), narrow=lambda t, d, s, l: t.narrow(d, s, l), t=lambda t: t.t(), all=lambda t: t.all(), any=lambda t: t.any(),
+                     ge=lambda a, b: a >= b, le=lambda a, b: a <= b, gt=lambda a, b: a > b, lt=lambda a, b: a < b, eq=lambda a, b: a == b, ne=lambda a, b: a != b,
+                     is_floating_point=lambda t: t.dtype.cat == 2)
+    for k, f in mod_funcs.items():
+        setattr(T, k, f)
+    T.linalg.multi_dot = multi_dot
+
+    meth = dict(diag=lambda s, diagonal=0: T.diag(s), allclose=lambda s, o, rtol=1e-05, atol=1e-08, equal_nan=False: T.allclose(s, o, rtol, atol, equal_nan),
+                isclose=lambda s, o, rtol=1e-05, atol=1e-08, equal_nan=False: T.isclose(s, o, rtol, atol, equal_nan), clamp=clamp, clip=clamp, clamp_=clamp_, clip_=clamp_,
+                clamp_min=lambda s, m: clamp(s, min=m), clamp_max=lambda s, m: clamp(s, max=m), clamp_min_=lambda s, m: clamp_(s, min=m), clamp_max_=lambda s, m: clamp_(s, max=m),
+                sign=sign, sgn=sign, argsort=argsort, sort=sort, argmax=argmax, argmin=argmin, amax=amax, amin=amin, prod=prod, cumsum=cumsum, nonzero=nonzero, flip=flip,
+                unbind=unbind, select=select, chunk=chunk, index_select=index_select, masked_fill=masked_fill, masked_fill_=masked_fill_, expand=expand, broadcast_to=broadcast_to,
+                repeat=repeat, unflatten=unflatten, view_as=lambda s, o: s.view(*o.shape), reshape_as=lambda s, o: s.reshape(*o.shape), type_as=lambda s, o: s.to(dtype=o.dtype),
+                new_ones=lambda s, *size, dtype=None: T.ones(*size, dtype=dtype or s.dtype), new_full=lambda s, size, v, dtype=None: T.full(size, v, dtype=dtype or s.dtype),
+                new_empty=lambda s, *size, dtype=None: T.zeros(*size, dtype=dtype or s.dtype), new_tensor=lambda s, data, dtype=None: T.tensor(data, dtype=dtype or s.dtype),
+                mv=mv, ge=lambda a, b: a >= b, le=lambda a, b: a <= b, gt=lambda a, b: a > b, lt=lambda a, b: a < b, eq=lambda a, b: a == b, ne=lambda a, b: a != b,
+                logical_not=logical_not, logical_and=logical_and, logical_or=logical_or, is_floating_point=lambda s: s.dtype.cat == 2, is_complex=lambda s: False,
+                abs_=lambda s: s._inplace(s.abs().a), square_=lambda s: s._inplace(s.square().a), addcdiv=lambda s, a, b, value=1: T.addcdiv(s, a, b, value), addmm=lambda s, a, b, beta=1, alpha=1: T.addmm(s, a, b, beta=beta, alpha=alpha),
+                multiply=lambda s, o: s * o, true_divide=lambda s, o: s / o, divide=lambda s, o: s / o, subtract=lambda s, o, alpha=1: s.sub(o, alpha=alpha), negative=lambda s: -s,
+                bool=lambda s: s.to(dtype=T.bool) if s.dtype is not T.bool else s, int=lambda s: s.to(dtype=T.int32), inner=lambda s, o: T.dot(s, o), get_device=lambda s: -1)
+    for k, f in meth.items():
+        if not hasattr(Tensor, k) or k in ("argsort",):
+            setattr(Tensor, k, f)
+    Tensor.mT = property(lambda s: s.transpose(-2, -1))
+    Tensor.mH = property(lambda s: s.transpose(-2, -1))
+    Tensor.H = property(lambda s: s.transpose(-2, -1))
+    T.argsort = argsort
+
+    # ---- further foreach ops (out-of-place results are new tensors; in-place variants write through)
+    def _lst(x, i):
+        return x[i] if isinstance(x, (list, tuple)) else x
+
+    def _chk(xs):
+        if len(xs) == 0:
+            raise RuntimeError("Tensor list must have at least one tensor.")
+
+    def fe(name, f, inplace):
+        def g(xs, *args, **kw):
+            _chk(xs)
+            outs = [f(x, *[_lst(a, i) for a in args], **kw) for i, x in enumerate(xs)]
+            if inplace:
+                for x, o in zip(xs, outs):
+                    x._inplace(o.a, o)
+                return None
+            return outs
+
+        g.__name__ = name
+        setattr(T, name, g)
+
+    fe("_foreach_sub", lambda x, y, alpha=1: x.sub(y, alpha=alpha) if isinstance(y, Tensor) else x - y, False)
+    fe("_foreach_neg", lambda x: -x, False)
+    fe("_foreach_abs", lambda x: x.abs(), False)
+    fe("_foreach_abs_", lambda x: x.abs(), True)
+    fe("_foreach_reciprocal", lambda x: 1.0 / x, False)
+    fe("_foreach_reciprocal_", lambda x: 1.0 / x, True)
+    fe("_foreach_pow", lambda x, e: x.pow(e), False)
+    fe("_foreach_pow_", lambda x, e: x.pow(e), True)
+    fe("_foreach_addcmul", lambda x, a, b, value=1: T.addcmul(x, a, b, value), False)
+    fe("_foreach_addcdiv", lambda x, a, b, value=1: T.addcdiv(x, a, b, value), False)
+    fe("_foreach_maximum", lambda x, y: T.maximum(x, y if isinstance(y, Tensor) else T.tensor(y, dtype=x.dtype)), False)
+    fe("_foreach_maximum_", lambda x, y: T.maximum(x, y if isinstance(y, Tensor) else T.tensor(y, dtype=x.dtype)), True)
+    fe("_foreach_minimum", lambda x, y: T.minimum(x, y if isinstance(y, Tensor) else T.tensor(y, dtype=x.dtype)), False)
+    fe("_foreach_clamp_min", lambda x, y: clamp(x, min=y), False)
+    fe("_foreach_clamp_min_", lambda x, y: clamp(x, min=y), True)
+    fe("_foreach_clamp_max", lambda x, y: clamp(x, max=y), False)
+    fe("_foreach_clamp_max_", lambda x, y: clamp(x, max=y), True)
+    fe("_foreach_square", lambda x: x.square(), False) if hasattr(Tensor, "square") else None
